@@ -4,6 +4,10 @@ import Kio.Spec.Wire
 import Kio.Generated.All
 import Kio.WireRec
 import Kio.Spec.Foreign
+import Kio.Model.TablePreds
+import Kio.Generated.Info
+import Kio.Model.Phantom
+import Kio.Generated.Bounds
 /-!
 Line-protocol driver (DESIGN §4.2): one request per line on stdin, one reply per line on stdout.
 Run with `lake env lean --run Driver.lean`.
@@ -92,6 +96,10 @@ def primWriter (env : Env) (fn : String) : Option (Value → Except Err Bytes) :
   | "legacy_array_writer:legacy_string" => some (legacyArrayWriter writeLegacyString)
   | _ => none
 
+def etypeOf : String → Option EType
+  | "request" => some .request | "response" => some .response | "header" => some .header
+  | "data" => some .data | "nested" => some .nested | _ => none
+
 def step (st : St) (line : String) : St × String :=
   match (line.trimAscii.toString.splitOn " ").filter (· ≠ "") with
   | ["hello"] => (st, s!"ok {st.classes.size} {Kio.Generated.digest}")
@@ -153,6 +161,63 @@ def step (st : St) (line : String) : St × String :=
         | _ => (st, "bad-op")
       | none => (st, "bad-op")
     | _, _ => (st, "bad-op")
+  | ["isinst", tname, kind, arg] =>
+    -- isinst <type> <int|bool|float|str|bytes|td|dta|dtn|none|other> <arg>
+    let ty : Option PType := match tname with
+      | "i8" => some .i8 | "i16" => some .i16 | "i32" => some .i32 | "i64" => some .i64
+      | "u8" => some .u8 | "u16" => some .u16 | "u32" => some .u32 | "u64" => some .u64
+      | "uvarint" => some .uvarint | "uvarlong" => some .uvarlong | "svarint" => some .svarint
+      | "svarlong" => some .svarlong | "f64" => some .f64 | "i32Timedelta" => some .i32Timedelta
+      | "i64Timedelta" => some .i64Timedelta | "TZAware" => some .tzAware
+      | "TZAwareMicros" => some .tzAwareMicros | "Records" => some .records | _ => none
+    let v : Option PyVal := match kind with
+      | "int" => arg.toInt?.map .int
+      | "bool" => some (.bool (arg = "1"))
+      | "float" => arg.toNat?.map .float
+      | "str" => some .str | "bytes" => some .bytes
+      | "td" => arg.toInt?.map .timedelta
+      | "dta" => arg.toInt?.map (.datetime true)
+      | "dtn" => arg.toInt?.map (.datetime false)
+      | "none" => some .none | "other" => some .other | _ => none
+    match ty, v with
+    | some t, some v =>
+      (st, s!"ok {if isInstance Generated.bounds t v then 1 else 0} {repr (construct Generated.bounds t v)}")
+    | _, _ => (st, "bad-op")
+  | ["idx_key", k] =>
+    match k.toInt? with
+    | some k => (st, match Generated.tables.nameFromKey k with
+        | .ok n => s!"ok {String.ofList ((Generated.tables.name n).map Char.ofNat)}"
+        | .error e => s!"err {repr e}")
+    | none => (st, "bad-op")
+  | ["idx_payload", k, v, et] =>
+    match k.toInt?, v.toInt?, etypeOf et with
+    | some k, some v, some et => (st, match Generated.tables.loadPayloadSchema k v et with
+        | .ok c => s!"ok {c}" | .error e => s!"err {repr e}")
+    | _, _, _ => (st, "bad-op")
+  | ["idx_entity", name, v, et] =>
+    match v.toInt?, etypeOf et with
+    | some v, some et =>
+      let t := Generated.tables
+      (st, match t.entityPathStr (strOf name) v et with
+        | .ok leaf => (match leaf.classIdx, leaf.module with
+            | some c, some m => s!"ok {c} {String.ofList ((t.name m.api).map Char.ofNat)} {m.version} {repr m.kind}"
+            | _, _ => "err importFailed")
+        | .error e => s!"err {repr e}")
+    | _, _ => (st, "bad-op")
+  | ["fields", idx] =>
+    match idx.toNat?.bind (st.classes[·]?) with
+    | some s =>
+      let descr := s.fields.map (fun f => match f with
+        | .mk m sh =>
+          let kind := match sh with
+            | .prim .. => "prim" | .primArr .. => "primArr" | .ent .. => "ent" | .entArr .. => "entArr" | .bad => "bad"
+          let opt := match sh.isOptional with | .ok b => (if b then "1" else "0") | .error _ => "E"
+          let tag := match m.getTag with | .ok (some t) => toString t | .ok none => "-" | .error _ => "E"
+          let dflt := if m.tag.isSome then (match Field.taggedDefault st.env (.mk m sh) with
+              | .ok v => v.render.replace " " "," | .error e => "ERR:" ++ e.name) else "-"
+          s!"{kind}:{opt}:{tag}:{dflt}")
+      (st, "ok " ++ " ".intercalate descr)
+    | none => (st, "bad-op")
   | ["reccfg", a, b] => ({ st with rcfg := { exactReads := a = "1", roundTs := b = "1" } }, "ok")
   | ["rbatch", hex] =>
     match bytesOfHex hex with
